@@ -149,6 +149,32 @@ MacBindVals == MacValsF \cup MacValsM \cup MacValsG
 MacScopeNames == {"W", "X"}
 NamesMac == <<"p", "q", "value", "x">>
 
+------------------------------------------------------------------------------
+(* C07: operative config.  f has an allowlisted subset and a non-literal default; g is a class *)
+N1 == <<"nonlit", "n1">>
+OpF == [ Base EXCEPT !.sel = <<"m","f">>, !.pos = <<"p","q","r">>, !.npd = 3, !.kwo = <<"k">>, !.kwd = {"k"},
+                      !.dflt = {<<"p", D("p")>>, <<"q", D("q")>>, <<"r", N1>>, <<"k", D("k")>>}, !.deny = {"q"} ]
+OpG == [ Base EXCEPT !.sel = <<"n","g">>, !.kind = "cls", !.pos = <<"x">>, !.npd = 1, !.vk = TRUE,
+                      !.dflt = {<<"x", D("x")>>}, !.api = "external" ]
+OpH == [ Base EXCEPT !.sel = <<"n","h">>, !.pos = <<"x","y">>, !.npd = 1, !.dflt = {<<"y", D("y")>>},
+                      !.allow = {"y"}, !.api = "register" ]
+OpConfs == {OpF, OpG, OpH, GinMacro}
+OpRegs == {OpConfs}
+OpValsF == { L1, L2, N1, R(<<"n","g">>, <<>>, "call"), R(<<"n","g">>, <<"a">>, "call"), Pct(<<"W">>),
+             <<"list", <<L1, R(<<"n","g">>, <<>>, "bare")>>>> }
+OpValsG == { L1, L2 }
+OpValsM == { L1, L2 }
+OpFilter(sc, c, v) ==
+  \/ c.sel = <<"m","f">> /\ v \in OpValsF
+  \/ c.sel \in {<<"n","g">>, <<"n","h">>} /\ v \in OpValsG
+  \/ c.sel = <<"gin","macro">> /\ v \in OpValsM /\ sc = <<"W">>
+OpBindVals == OpValsF \cup OpValsG \cup OpValsM
+NamesOp == <<"k", "p", "q", "r", "value", "x", "y", "z">>
+
+\* C07's replay clause speaks about a fixed configuration followed by calls
+BindsThenCalls == (okeys # {}) => (out.op # "Bind")
+OperBound == Cardinality(okeys) <= 2
+
 ConstsBound == Cardinality(consts) <= 2
 
 LockConfs == {LockF, LockG, LockH}
